@@ -560,7 +560,9 @@ func concretise(c *expCase) (*concrete, error) {
 			case "p":
 				m["name"] = lab
 				if a.T == "st" {
-					m["in"] = "body"
+					// a schema-carrying parameter; its location is "body" or (an OpenAPI 3 leftover, legal input for
+					// the library, which walks the schema wherever it stands) something else
+					m["in"] = []string{"body", "body", "query", "Body", "formData"}[(c.Rot+i)%5]
 				} else {
 					m["in"] = "query"
 					m["type"] = "string"
@@ -616,6 +618,11 @@ func concretise(c *expCase) (*concrete, error) {
 		}
 		if err := setAt(root, cc.paths[i], cc.nodeOf[i]); err != nil {
 			return nil, fmt.Errorf("node %d at %v: %w", i, cc.paths[i], err)
+		}
+		// a schema dependency stands between property dependencies (lists of names)
+		if pth := cc.paths[i]; len(pth) >= 2 && pth[len(pth)-2] == "dependencies" {
+			_ = setAt(root, append(append([]string{}, pth[:len(pth)-1]...), "0-names"), []interface{}{"x"})
+			_ = setAt(root, append(append([]string{}, pth[:len(pth)-1]...), "zz-names"), []interface{}{"y", "z"})
 		}
 	}
 	return cc, nil
